@@ -4,7 +4,6 @@ from .ops_c03 import OPS
 
 PROP, BIN, RUNMOD, RUNFN = "C03", "c03", "RunC03", "run_C03"
 MODES = [True, False]
-LEVEL = "other"   # until the Model = Spec theorems of this property are merged (placeholder theorem only)
 
 
 def gen_lists(rng, op, w, n, count):
